@@ -465,6 +465,20 @@ class Session:
         return self.I.call(f, list(args), kwargs)
 
     def method(self, obj, name, *args, **kwargs):
+        if name.startswith("_") and not name.startswith("__"):
+            # a contract attached to a PRIVATE helper calls it with the signature of the source it was written against;
+            # if the call cannot even bind its arguments the helper's signature was changed (a refactoring is free to do
+            # that): the helper contract has to be re-attached -- UNDECIDED (inv-form), not a violation
+            from .interp import RaisedEx as _RaisedEx
+
+            try:
+                return self.I.call_method(obj, name, list(args), kwargs)
+            except _RaisedEx as e:
+                m = str(getattr(e, "msg", ""))
+                if e.kind == "TypeError" and m.startswith(f"{name}() ") and any(w in m for w in ("positional argument", "unexpected keyword", "missing required", "missing keyword-only")):
+                    self.ctx.oblige(f"{self.prefix}/inv-form:signature-of-private-helper-{name}-changed", z3.BoolVal(False), (), "inv-form", None)
+                    raise PathEnd("private helper signature changed")
+                raise
         return self.I.call_method(obj, name, list(args), kwargs)
 
     def getattr(self, obj, name):
